@@ -43,7 +43,7 @@ CHECKS += [
                   "path replay against the implementation + exhaustive fault injection / call-history BFS on pipeflow",
      "text": "(a) BFS over all letter sequences (per-unknown change level x residual level, incl. NaN and the exact boundary) "
              "up to the iteration bound on the real newton_raphson/finalize_iteration/set_damping_factor for the hydraulic, "
-             "thermal and bidirectional stage, three damping settings, two initial alphas, with state deduplication; "
+             "thermal and bidirectional stage, three damping settings, three initial alphas (1, 0.1, 0.01), with state deduplication; "
              "(b) TLC explores tla/NewtonDriver.tla completely (Inv, Budget, TypeOK) and every path of the dumped state "
              "graph is replayed on the real driver and compared state by state; (c) BFS over pipeflow call/edit histories "
              "(depth 2/3) on three nets with a monitor recomputing the last change of every unknown; (d) every single "
@@ -120,7 +120,7 @@ CHECKS += [
     {"property_id": "C12", "category": "model_checking", "design_ref": "DESIGN.md 4/C12",
      "technique": "explicit-state BFS over call/edit histories on one net object with deep input snapshots and fresh-net differential",
      "text": "All histories of steps (optional user-option / edit / restore operation + one pipeflow in one of 8 modes/option sets) "
-             "of depth 2 (quick) / 3 (thorough) on three nets: before/after deep snapshots of every input (tables, fluid "
+             "of depth 2 (quick) / 3 (thorough) on three nets (incl. heat-defined consumers whose demand is switched off and restored): before/after deep snapshots of every input (tables, fluid "
              "properties, std types, component list, user options, default options), bit-identical repeat, equality with the "
              "same call on a freshly built net, heat-from-stored-solution = sequential (also from a solution kept across a "
              "failing run).",
@@ -156,7 +156,8 @@ CHECKS += [
      "text": "All sequences (depth 2 quick / 3 thorough) of 29 toolbox operations on two nets with junction-pipe valves whose pipe "
              "index does / does not coincide with junction indices, remote pressure controller, circulation pumps and results: "
              "after every operation referential integrity (own reference-column list), equality with the reference model "
-             "(elements, connections by name, untouched attributes), results unchanged under relabelling, selected islands "
+             "(elements, connections by name, untouched attributes), stored result rows follow every relabelling bit-identically "
+             "(read by element name), a fresh pipeflow reproduces them, selected islands "
              "reproduce their results.",
      "note": "reference model written from the docstrings"},
     {"property_id": "C18", "category": "exploration", "design_ref": "DESIGN.md 4/C18",
